@@ -511,10 +511,20 @@ func canonDHCP(f []byte, noXID bool) string {
 	return hx(g) + "{" + strings.Join(opts, ",") + "}" + fmt.Sprint(len(f))
 }
 
+// strCov: which packet-derived string fields of the retained state have been seen non-empty in a dump
+var strCov = map[string]bool{}
+
+func cov(field, v string) string {
+	if v != "" {
+		strCov[field] = true
+	}
+	return v
+}
+
 func hstr(s string) string { return hx([]byte(s)) }
 
 func showName(n packet.NameEntry) string {
-	return hstr(n.Name) + "." + hstr(n.Model) + "." + hstr(n.Manufacturer) + "." + hstr(n.OS)
+	return hstr(cov("NameEntry.Name", n.Name)) + "." + hstr(cov("NameEntry.Model", n.Model)) + "." + hstr(cov("NameEntry.Manufacturer", n.Manufacturer)) + "." + hstr(cov("NameEntry.OS", n.OS))
 }
 
 func showNames(l ...packet.NameEntry) string {
@@ -616,7 +626,7 @@ func (e *env) dump() string {
 	leases := e.dhcp.VerifLeases()
 	sort.Slice(leases, func(i, j int) bool { return bytes.Compare(leases[i].ClientID, leases[j].ClientID) < 0 })
 	for _, l := range leases {
-		ls = append(ls, hx(l.ClientID)+"="+hx(l.ClientID)+"/"+hx(l.Addr.MAC)+"/"+hx(l.XID)+"/"+hstr(l.Name)+"/"+tf(l.SubnetID == "net2"))
+		ls = append(ls, hx(l.ClientID)+"="+hx(l.ClientID)+"/"+hx(l.Addr.MAC)+"/"+hx(l.XID)+"/"+hstr(cov("Lease.Name", l.Name))+"/"+tf(l.SubnetID == "net2"))
 	}
 	// router table
 	e.icmp6.Lock()
@@ -630,7 +640,7 @@ func (e *env) dump() string {
 			rd = append(rd, hx(a))
 		}
 		for _, d := range r.Options.DNSSearchList.DomainNames {
-			ds = append(ds, hstr(d))
+			ds = append(ds, hstr(cov("DNSSearchList.DomainNames", d)))
 		}
 		_ = ip
 		rs = append(rs, ipKey(r.Addr.IP)+"="+hx(r.Addr.MAC)+"/"+hx(r.Options.SourceLLA.MAC)+"/"+strings.Join(pf, "+")+"/"+
@@ -649,19 +659,19 @@ func (e *env) dump() string {
 		ent := e.dns.DNSFind(k)
 		var a4, a6, cn []string
 		for ip, r := range ent.IP4Records {
-			a4 = append(a4, ipKey(ip)+"\x00"+ipKey(r.IP)+"="+hstr(r.Name))
+			a4 = append(a4, ipKey(ip)+"\x00"+ipKey(r.IP)+"="+hstr(cov("IPResourceRecord.Name", r.Name)))
 		}
 		for ip, r := range ent.IP6Records {
 			a6 = append(a6, ipKey(ip)+"\x00"+ipKey(r.IP)+"="+hstr(r.Name))
 		}
 		for key, r := range ent.CNameRecords {
-			cn = append(cn, hstr(key)+"\x00"+hstr(r.CName)+"="+hstr(r.Name))
+			cn = append(cn, hstr(cov("DNSEntry.CNameRecords", key))+"\x00"+hstr(cov("NameResourceRecord.CName", r.CName))+"="+hstr(cov("NameResourceRecord.Name", r.Name)))
 		}
 		var pt []string
 		for key, r := range ent.PTRRecords {
-			pt = append(pt, hstr(key)+"\x00"+ipKey(r.IP)+"="+hstr(r.Name))
+			pt = append(pt, hstr(cov("DNSEntry.PTRRecords", key))+"\x00"+ipKey(r.IP)+"="+hstr(r.Name))
 		}
-		dn = append(dn, hstr(ent.Name)+"{"+sortedVals(a4)+"/"+sortedVals(a6)+"/"+sortedVals(cn)+"/"+sortedVals(pt)+"}")
+		dn = append(dn, hstr(cov("DNSEntry.Name", ent.Name))+"{"+sortedVals(a4)+"/"+sortedVals(a6)+"/"+sortedVals(cn)+"/"+sortedVals(pt)+"}")
 	}
 	// mDNS response cache (verif hook), sorted by key
 	cache := e.dns.VerifMDNSCache()
@@ -796,6 +806,14 @@ func (e *env) callerWritesGetters() {
 			}
 		}
 	}
+	if e.cw == "gethosts" || e.cw == "all" {
+		// the slice is the caller's (a shallow copy); the pointers in it are the table's records, shared by contract
+		l := e.s.GetHosts()
+		for i := range l {
+			l[i] = nil
+		}
+		_ = append(l[:0], nil, nil)
+	}
 	if e.cw == "whois" || e.cw == "all" {
 		if e.arp == nil {
 			e.arp, _ = arp_spoofer.New(e.s)
@@ -852,8 +870,16 @@ func (e *env) callerWritesGetters() {
 			if ent.PTRRecords != nil {
 				ent.PTRRecords["overwritten"] = packet.IPResourceRecord{Name: "overwritten", IP: bogus}
 			}
+			for _, l := range [][]netip.Addr{ent.IP4List(), ent.IP6List()} {
+				for i := range l {
+					l[i] = bogus
+				}
+			}
+			for cl, i := ent.CNameList(), 0; i < len(cl); i++ {
+				cl[i] = "overwritten"
+			}
 		}
 	}
 }
 
-var cwClasses = []string{"notif", "findbymac", "ipaddrs", "whois", "findrouter", "mdnsret", "dnsret", "dnsfind"}
+var cwClasses = []string{"notif", "gethosts", "findbymac", "ipaddrs", "whois", "findrouter", "mdnsret", "dnsret", "dnsfind"}
